@@ -54,6 +54,33 @@ class Lock:
         self.f.close()
 
 
+def normalized_source(path):
+    """Rust source with comments and whitespace removed (a comment or formatting change is not a change)."""
+    try:
+        t = open(path, errors="replace").read()
+    except OSError:
+        return ""
+    t = re.sub(r"/\*.*?\*/", "", t, flags=re.S)
+    t = re.sub(r"//[^\n]*", "", t)
+    return re.sub(r"\s+", "", t)
+
+
+def source_fingerprints(files):
+    return {f: hashlib.sha1(normalized_source(os.path.join("/repo", f)).encode()).hexdigest() for f in files}
+
+
+def changed_anchor_files(pid):
+    """Anchored source files of the property whose text differs from the tree the models were written
+    against (checks/fingerprints.json).  Never a verdict by itself: it only buys the property a deeper
+    search on this run (more seeds), because changed code deserves more scrutiny."""
+    try:
+        base = json.load(open(os.path.join(VERIF, "checks", "fingerprints.json"))).get(pid, {})
+    except Exception:
+        return []
+    cur = source_fingerprints(list(base))
+    return sorted(f for f in base if cur.get(f) != base[f])
+
+
 def load_cfg(pid):
     with open(os.path.join(VERIF, "checks", "props", pid + ".json")) as f:
         return json.load(f)
@@ -357,6 +384,8 @@ def check(pid, tier):
 
     stats = {"evaluations": 0, "distinct": set(), "mismatches": 0, "oracle_failures": 0, "skipped": 0,
              "lines": 0, "distribution": {}, "samples": [], "families": []}
+    changed = changed_anchor_files(pid)
+    escalate = int(cfg.get("escalate_seeds", 3)) if changed else 0
     per_profile = {}
     corr_broken = []      # descriptions of correspondence streams that no longer check
     found_failing_input = False
@@ -396,6 +425,11 @@ def check(pid, tier):
                     tie_problems.append("generator %s crashed: %s" % (name, out[-300:]))
                     continue
                 sources.append(("generated seed=%d tier=%s" % (seed, tier), gen_path))
+                for extra in range(1, escalate + 1):
+                    xp = os.path.join(wdir, "%s.%s.cases.x%d.txt" % (name, prof, extra))
+                    rc, out = sh([harness_bin(prof), "gen", name, str(seed + 1000 * extra), tier, xp], timeout=7200)
+                    if rc == 0:
+                        sources.append(("generated seed=%d tier=%s (extra: anchored source changed)" % (seed + 1000 * extra, tier), xp))
                 for label, path in sources:
                     cases = case_lines(path)
                     if not cases:
@@ -542,6 +576,7 @@ def check(pid, tier):
             "profile_divergences": stats.get("profile_divergences", 0),
             "streams": stats["families"], "distribution": dict(sorted(stats["distribution"].items())[:60]),
             "tie_problems": tie_problems,
+            "anchored_sources_changed": changed, "extra_seed_rounds": escalate,
         },
         "assumptions": cfg.get("assumptions", []),
         "wall_s": round(wall, 2),
